@@ -662,7 +662,7 @@ func coordMain(w World, prop string) int {
 					rp = fv.Replay
 				}
 			}
-			fmt.Printf("KNOWN-FINDING: property=%s %s (seen in %d runs; replay=%s)\n", prop, k.Text, n, rp)
+			fmt.Printf("KNOWN-FINDING: %s (seen in %d runs; replay=%s)\n", k.Text, n, rp)
 		}
 	}
 	wall := time.Since(start).Seconds()
